@@ -217,9 +217,14 @@ func c03Exec(c *Case) {
 				if !c03Screen(c, l, data) {
 					continue
 				}
-				walked, wok := c01Parse(data)
+				walked, wok, afterJunk := c01ParseRemain(data)
 				if !wok || strings.Contains(l, ":payload:") {
 					model = "" // an embedded payload is opaque to the walk: oracles only
+				} else if afterJunk > 0 {
+					// the serve loop keeps reading after a stream that does not open; where the
+					// failed reader left the position is not determined by the abstract body
+					c.Stat("skipped:junk-mid-session")
+					model = ""
 				} else if strings.Contains(walked, " SX ") {
 					// what the serve loop finds after a stream that broke mid-way is not
 					// determined by the abstract body: oracles only
